@@ -196,6 +196,11 @@ def judge(rep, tree, label, val, results, api):
             rep.count("paths_not_judged_undecided_branch")
         elif st == "value-unknown":
             rep.unknown("C01.value", construct, "", f"{r['tree']} at {{{r['val']}}}: {r['reason']}")
+        elif st == "spurious-raise" and not api.startswith("number") and not r["imprecise"]:
+            # a point of the domain: the property promises the real value there, not an exception
+            rep.violation("C01.value", construct, r.get("origin", ""),
+                          f"{r['tree']} at {{{r['val']}}}: the tree has a real value here but evaluation raised "
+                          f"{r.get('exc')}", witness=r, witness_class=f"raises on the domain {param_class(tree)} [{region_class(val)}]")
         elif st in ("spurious-raise", "wrong-exception", "not-a-number", "complex") and api.startswith("number"):
             rep.violation("C01.entry", construct, r.get("origin", ""),
                           f"{r['tree']}.at(<number>) with {{{r['val']}}}: expected {r.get('expected')}, got "
